@@ -1406,6 +1406,7 @@ class PCE500Emulator:
                     "start_line": chip_snap.start_line,
                     "page": chip_snap.page,
                     "y_address": chip_snap.y_address,
+                    "busy": chip_snap.busy,
                     "instruction_count": chip_snap.instruction_count,
                     "data_write_count": chip_snap.data_write_count,
                 }
